@@ -201,6 +201,8 @@ def families(ctx, exe):
         for r in rows:
             f.write(json.dumps(r, separators=(",", ":")) + "\n")
     cs = x_c12.CaseStream(ctx, exe, [], keyfn, "families")
+    huge = []          # texts of ~65 536 bytes: run separately without the per-script heap balance (the harness's own result
+                       # buffers grow to megabytes inside the script, which the balance would report as a leak)
     count = {"EvalFileInPlace": 0, "EvalFileCopy": 0, "EvalFileRoomy": 0, "EvalFileSubstr": 0}
     extreme = [0]
     famcount = {}
@@ -224,7 +226,7 @@ def families(ctx, exe):
             steps.append(("al", ["condense", "0", tok(s)], tok(e["condense"]), cls + ",align=0"))
             if name != "byte-pairs" and len(ctx.cov["samples"]) < 10 and len(s) in (7, 128, 257):
                 ctx.sample({"family": name, "len": len(s), "alignments": list(aligns), "first_bytes": s[:12], "safe_str_n": e["ns"]})
-            cs.add(x_c12.Case(i, steps, {"family": name, "len": len(s)}))
+            (huge.append if len(s) >= 60000 else cs.add)(x_c12.Case(i, steps, {"family": name, "len": len(s)}))
         elif r["op"] == "copy":
             count["EvalFileCopy"] += 1
             b0 = r["args"][1]
@@ -256,6 +258,10 @@ def families(ctx, exe):
                               taken=lambda: count, env={"CASES": path})
     finally:
         tot = cs.close()
+    nhuge = 0
+    if huge:
+        nhuge = x_c12.run_cases(ctx, exe, [], huge, keyfn, "families_huge_texts", env=dict(cs.env or {}, VH_NO_HEAP="1", VH_WATCHDOG="300"))[0]
+    tot["scripts"] += nhuge
     if res.ok and (tot["scripts"] != len(rows) or res.edges != len(rows)):
         raise Broken("families: %d rows, %d evaluated by TLC, %d replayed" % (len(rows), res.edges, tot["scripts"]))
     ctx.cov["families"] = {"texts_by_family": famcount, "copy_and_substr_size_sweep": count["EvalFileCopy"] + count["EvalFileSubstr"] + count["EvalFileRoomy"] - extreme[0],
